@@ -254,6 +254,10 @@ func engineLoadFaults(ctx *Ctx) {
 			if !expectReal && db.Size() == 0 {
 				viol("empty-fallback", "the fallback database is empty")
 			}
+			// "built-in": the fallback may not be whatever happens to lie in <main>.backup
+			if !expectReal && bf == "valid" && db.Size() == 2 && db.Commands[0].Command == mainCmds[0].Command && db.Commands[1].Command == mainCmds[1].Command {
+				viol("fallback-not-built-in", "the returned database is the content of the .backup file, not a built-in fallback")
+			}
 		}
 		if isReal && expectReal {
 			ctx.R.Path("returned-real", 1)
@@ -309,7 +313,7 @@ func engineLoadFaults(ctx *Ctx) {
 			ctx.R.Sample(cs)
 		}
 	}
-	backups := []string{"missing", "valid", "malformed-yaml"}
+	backups := []string{"missing", "valid", "malformed-yaml", "valid-empty-list", "zero-bytes"}
 	k := 0
 	for _, mf := range c15Faults {
 		for _, pf := range c15Faults {
